@@ -56,7 +56,7 @@ var blockRe = regexp.MustCompile(`(?s)/\*@(.*?)@\*/`)
 var clauseKeywords = map[string]bool{
 	"serves": true, "requires": true, "ensures": true, "modifies": true, "decreases": true,
 	"loop": true, "flag": true, "pure": true, "trusted": true, "inline": true, "opaque": true,
-	"nopanic": true, "maypanic": true, "unroll": true, "abstract": true, "allocates": true,
+	"nopanic": true, "maypanic": true, "unroll": true, "abstract": true, "allocates": true, "replaytext": true, "wrap": true, "overflow": true, "norac": true, "stages": true,
 }
 
 // parseContracts reads all /*@ ... @*/ blocks of a contracts file.
@@ -71,6 +71,9 @@ func parseContracts(pkgDir string) ([]*Contract, error) {
 	}
 	src := string(data)
 	var out []*Contract
+	if n, m := strings.Count(src, "@*/"), len(blockRe.FindAllStringIndex(src, -1)); n != m {
+		return nil, fmt.Errorf("%s: %d contract terminators but %d well-formed /*@ ... @*/ blocks (reformatted by gofmt?)", path, n, m)
+	}
 	for _, loc := range blockRe.FindAllStringSubmatchIndex(src, -1) {
 		body := src[loc[2]:loc[3]]
 		line := 1 + strings.Count(src[:loc[0]], "\n")
@@ -365,6 +368,8 @@ func specToGo(s string, resultName string) string {
 					sb.WriteString("__old")
 				case w == "fresh" && next == '(':
 					sb.WriteString("__fresh")
+				case w == "samefn" && next == '(':
+					sb.WriteString("__samefn")
 				case w == "result":
 					sb.WriteString(resultName)
 				case len(w) == 4 && strings.HasPrefix(w, "ret") && w[3] >= '0' && w[3] <= '9':
